@@ -151,3 +151,39 @@ Theorem C14_deindent_preserves_cover :
   lines_cover_nv tys (deindent_package tys lines) = lines_cover_nv tys lines.
 Proof. exact deindent_preserves_cover. Qed.
 
+(* the grammar model (Model/ParserGrammar.v, tied to parser.rs by the unit grammar): the lines of every pass are a kernel run of
+   its own event log, for every input and fuel; hence well-formed and covering *)
+From PasfmtVerif Require Import Model.ParserGrammar Proofs.ParserKernelProofs Proofs.ParserGrammarProofs Proofs.ParserGrammarRunProofs.
+Theorem C14_grammar_is_kernel_run :
+  forall (pass : list nat) (wsnl : list bool) (fuel : nat) (c : call) (s : pstate pass),
+  map ll_toks (pass_lines pass (run pass wsnl fuel c s)) =
+  k_lines (k_run pass (pass_events pass (run pass wsnl fuel c s))).
+Proof. exact grammar_is_kernel_run. Qed.
+
+Theorem C14_grammar_pass_lines_wf :
+  forall (pass : list nat) (wsnl : list bool) (toks : list RawTokenType) (attr : list nat),
+  increasing pass ->
+  let ls := map ll_toks (pass_lines pass (parse_pass pass wsnl toks attr)) in
+  Forall increasing ls /\ NoDup (concat ls) /\ incl (concat ls) pass.
+Proof. exact parse_pass_lines_wf. Qed.
+
+Theorem C14_grammar_pass_cover :
+  forall (pass : list nat) (wsnl : list bool) (toks : list RawTokenType) (attr : list nat),
+  (length pass <= pidx pass (parse_pass pass wsnl toks attr))%nat ->
+  forall i t : nat,
+  nth_error pass i = Some t ->
+  In t (concat (map ll_toks (pass_lines pass (parse_pass pass wsnl toks attr)))) \/
+  In i (k_skips (pass_events pass (parse_pass pass wsnl toks attr)) 0).
+Proof. exact parse_pass_cover. Qed.
+
+Theorem C14_grammar_parse_file_pass_lines_wf :
+  forall (toks : list RawTokenType) (wsnl : list bool) (passes : list (list nat)),
+  Forall increasing passes ->
+  let r := parse_file_with toks wsnl passes in
+  Forall
+    (fun pr : pass_result =>
+     Forall increasing (map ll_toks (pr_lines pr)) /\
+     NoDup (concat (map ll_toks (pr_lines pr)))) (r_passes r).
+Proof. exact parse_file_pass_lines_wf. Qed.
+
+
